@@ -566,7 +566,7 @@ func staleReadyCase(c *mon.Ctx, idx int64, r *rand.Rand) {
 	}
 	add(pid, mk(1))
 	dam := mk(2)
-	dam[3] += byte(20 + r.IntN(100)) // section_length (low byte) enlarged: the unit never looks complete
+	dam[2] |= 0x01 + byte(r.IntN(3)) // section_length enlarged beyond the end of the packet: the unit never looks complete
 	add(pid, dam)
 	add(pid, mk(3))
 	for k := 0; k < 1+r.IntN(3); k++ {
